@@ -1,9 +1,18 @@
+#[cfg(not(eyeball_verif))]
 use std::{
     hash::{Hash, Hasher},
     mem,
     sync::RwLock,
     task::{Context, Poll, Waker},
 };
+#[cfg(eyeball_verif)]
+use std::{
+    hash::{Hash, Hasher},
+    mem,
+    task::{Context, Poll, Waker},
+};
+#[cfg(eyeball_verif)]
+use verif_sync::RwLock;
 
 #[derive(Debug)]
 pub struct ObservableState<T> {
